@@ -15,6 +15,8 @@ def build(table="module"):
     S.load_module(cs)
     import spec.policy_spec as ps
     S.load_module(ps)
+    import spec.refcount_spec as rs
+    S.load_module(rs)
     import rpyc.core.channel as ch
     S.consts["C"] = tables.frame_consts_from_module(ch)
     import rpyc.core.stream as stream_mod
@@ -25,7 +27,7 @@ def build(table="module"):
     S.consts["T"] = T
     S.consts["PERM_INVARIANT"] = bs.PERM_INVARIANT
     st = store.Store()
-    for m in ("brine", "compat", "externals", "stream", "channel", "protocol_attr"):
+    for m in ("brine", "compat", "externals", "stream", "channel", "protocol_attr", "colls"):
         importlib.import_module("contracts." + m).register(st)
     lib = libmodels.Lib(S)
     ex = engine.Executor(st, REPO, S, lib)
